@@ -46,6 +46,14 @@ def tdc_ref(scores, is_target, desc=True):
     return q
 
 
+def _f32_exact(q):
+    """True if the rational q is exactly representable in float32 (so mokapot's stored FDR equals it)."""
+    import numpy as np
+
+    f = float(np.float32(q.numerator / q.denominator))
+    return Fraction(f) == q
+
+
 def labels_ref(q_exact, is_target, thr, rel=3e-7):
     """Training labels per the statement and the set of indices whose label is
     ambiguous because the exact q-value is within float32 rounding of thr."""
@@ -55,7 +63,9 @@ def labels_ref(q_exact, is_target, thr, rel=3e-7):
             labels.append(-1)
             continue
         qf = float(q)
-        if abs(qf - thr) <= rel * max(qf, thr):
+        # ambiguous only if float32 storage actually rounds this value (dyadic values such as 1/2, 1/4, 1 are exact)
+        exact32 = qf == float(q.numerator) / float(q.denominator) and _f32_exact(q)
+        if abs(qf - thr) <= rel * max(qf, thr) and not exact32:
             ambiguous.add(i)
         labels.append(1 if qf <= thr else 0)
     return labels, ambiguous
